@@ -1,0 +1,29 @@
+// Copyright 2020-2025 Buf Technologies, Inc.
+//
+// Licensed under the Apache License, Version 2.0 (the "License");
+// you may not use this file except in compliance with the License.
+// You may obtain a copy of the License at
+//
+//      http://www.apache.org/licenses/LICENSE-2.0
+//
+// Unless required by applicable law or agreed to in writing, software
+// distributed under the License is distributed on an "AS IS" BASIS,
+// WITHOUT WARRANTIES OR CONDITIONS OF ANY KIND, either express or implied.
+// See the License for the specific language governing permissions and
+// limitations under the License.
+
+//go:build verif
+
+package bufprotoplugin
+
+// Contracts for the gocv verifier (see /verif/DESIGN.md). Comment-only.
+//
+// C17: the same output path produced twice (by two plugins, or twice by one) is an error.
+//@ func ValidatePluginResponses(pluginResponses) (err)
+//@   property C17
+//@   ensures duplicates-rejected: err == nil ==> (forall a int, x int, b int, y int :: 0 <= a && a < len(pluginResponses) && 0 <= x && x < len(pluginResponses[a].Response.File) && 0 <= b && b < len(pluginResponses) && 0 <= y && y < len(pluginResponses[b].Response.File) && (a < b || (a == b && x < y)) && pluginResponses[a].Response.File[x].GetInsertionPoint() == "" && pluginResponses[b].Response.File[y].GetInsertionPoint() == "" ==> filepath.Join(pluginResponses[a].PluginOut, pluginResponses[a].Response.File[x].GetName()) != filepath.Join(pluginResponses[b].PluginOut, pluginResponses[b].Response.File[y].GetName()))
+//@   loop 0 invariant forall a int, x int :: 0 <= a && a < $i0 && 0 <= x && x < len(pluginResponses[a].Response.File) && pluginResponses[a].Response.File[x].GetInsertionPoint() == "" ==> filepath.Join(pluginResponses[a].PluginOut, pluginResponses[a].Response.File[x].GetName()) in seen
+//@   loop 0 invariant forall a int, x int, b int, y int :: 0 <= a && a < $i0 && 0 <= x && x < len(pluginResponses[a].Response.File) && 0 <= b && b < $i0 && 0 <= y && y < len(pluginResponses[b].Response.File) && (a < b || (a == b && x < y)) && pluginResponses[a].Response.File[x].GetInsertionPoint() == "" && pluginResponses[b].Response.File[y].GetInsertionPoint() == "" ==> filepath.Join(pluginResponses[a].PluginOut, pluginResponses[a].Response.File[x].GetName()) != filepath.Join(pluginResponses[b].PluginOut, pluginResponses[b].Response.File[y].GetName())
+//@   loop 1 invariant forall a int, x int :: 0 <= a && (a < $i0 || (a == $i0 && x < $i1)) && 0 <= x && x < len(pluginResponses[a].Response.File) && pluginResponses[a].Response.File[x].GetInsertionPoint() == "" ==> filepath.Join(pluginResponses[a].PluginOut, pluginResponses[a].Response.File[x].GetName()) in seen
+//@   loop 1 invariant forall a int, x int, b int, y int :: 0 <= a && 0 <= x && x < len(pluginResponses[a].Response.File) && 0 <= b && (b < $i0 || (b == $i0 && y < $i1)) && 0 <= y && y < len(pluginResponses[b].Response.File) && (a < b || (a == b && x < y)) && pluginResponses[a].Response.File[x].GetInsertionPoint() == "" && pluginResponses[b].Response.File[y].GetInsertionPoint() == "" ==> filepath.Join(pluginResponses[a].PluginOut, pluginResponses[a].Response.File[x].GetName()) != filepath.Join(pluginResponses[b].PluginOut, pluginResponses[b].Response.File[y].GetName())
+//@   canary ensures err != nil
